@@ -390,6 +390,38 @@ type fakeConsul struct {
 	kvIndex uint64
 	kv      api.KVPairs
 	srv     *httptest.Server
+	// latency control for catalog requests: a request that ARRIVES while slow is set is
+	// answered (with the catalog it saw on arrival) only after delay
+	slow        bool
+	delay       time.Duration
+	catInFlight int
+	catSeen     int
+}
+
+func (f *fakeConsul) setSlow(on bool, d time.Duration) {
+	f.mu.Lock()
+	f.slow, f.delay = on, d
+	f.mu.Unlock()
+}
+
+// waitCatalogRequest waits until a catalog request beyond the first `seen` ones has arrived
+func (f *fakeConsul) waitCatalogRequest(seen int, max time.Duration) bool {
+	deadline := time.Now().Add(max)
+	for time.Now().Before(deadline) {
+		f.mu.Lock()
+		n := f.catSeen
+		f.mu.Unlock()
+		if n > seen {
+			return true
+		}
+		time.Sleep(time.Millisecond)
+	}
+	return false
+}
+func (f *fakeConsul) catalogRequests() int {
+	f.mu.Lock()
+	defer f.mu.Unlock()
+	return f.catSeen
 }
 
 func newFake() *fakeConsul {
@@ -449,6 +481,15 @@ func (f *fakeConsul) handle(w http.ResponseWriter, r *http.Request) {
 			}
 		}
 		idx := f.index
+		slow, d := f.slow, f.delay
+		f.catSeen++
+		f.catInFlight++
+		f.mu.Unlock()
+		if slow {
+			time.Sleep(d)
+		}
+		f.mu.Lock()
+		f.catInFlight--
 		f.mu.Unlock()
 		writeJSON(idx, out)
 	case strings.HasPrefix(p, "/v1/kv/"):
@@ -610,6 +651,9 @@ func partB(run *vh.Run) {
 		inconsistent bool
 		states       []regState
 		monitors     int
+		// delayed[k]: the catalog answer for snapshot k is slow and snapshot k+1 is published
+		// while that request is outstanding (its own catalog answers are fast)
+		delayed []bool
 	}
 	var hists []hist
 	// directed histories first: colliding node/id pairs (repaired F-C01-1), blank-padded route tags (repaired F-C01-2) and their neighbours
@@ -671,10 +715,48 @@ func partB(run *vh.Run) {
 		hists = append(hists, h)
 	}
 
+	// delayed-catalog histories: one service name (one catalog request per snapshot), every
+	// instance tagged; pairs of close snapshots (k: instance 0 healthy, slow catalog; k+1:
+	// instance 0 critical, fast catalog).  The configs must be pushed in snapshot order and
+	// the last one pushed must be the final state's.
+	nd := run.Scale(12, 120)
+	for i := 0; i < nd; i++ {
+		h := hist{class: "svc-delayed-catalog", prefix: tagPrefix, status: []string{"passing"}, strict: i%2 == 1, monitors: r.Intn(3)}
+		insts := genInstances(r, 1+r.Intn(2), 2+r.Intn(2), false)
+		for j := range insts {
+			insts[j].name = "svc-a"
+			insts[j].tags = []string{routeTagPool[j%len(routeTagPool)], "v1"}
+		}
+		mk := func(first string, allDown bool) regState {
+			var cs []*api.HealthCheck
+			for j, in := range insts {
+				st := first
+				if j > 0 {
+					st = []string{"passing", "critical", "passing", "warning"}[r.Intn(4)]
+					if allDown {
+						st = "critical"
+					}
+				}
+				cs = append(cs, svcCheck(in, "service:"+in.sid, st))
+			}
+			cs = append(cs, nodeCheck(insts[0].node, "serfHealth", "passing"))
+			r.Shuffle(len(cs), func(a, b int) { cs[a], cs[b] = cs[b], cs[a] })
+			return regState{insts: insts, checks: cs}
+		}
+		h.states = append(h.states, mk([]string{"passing", "critical"}[r.Intn(2)], false))
+		h.delayed = append(h.delayed, false)
+		for p, np := 0, 1+r.Intn(2); p < np; p++ {
+			h.states = append(h.states, mk("passing", false), mk("critical", r.Intn(2) == 0))
+			h.delayed = append(h.delayed, true, false)
+		}
+		hists = append(hists, h)
+	}
+
 	type result struct {
 		texts []string
 		cats  [][]*api.CatalogService
 		err   string
+		extra []string // configs pushed after the last snapshot's, during the grace period
 	}
 	results := make([]result, len(hists))
 	var wg sync.WaitGroup
@@ -708,16 +790,52 @@ func partB(run *vh.Run) {
 				return
 			}
 			ch := be.WatchServices()
-			for k := range h.states {
-				if k > 0 {
-					f.set(h.states[k].checks, res.cats[k])
-				}
+			recv := func(k int) bool {
 				select {
 				case t := <-ch:
 					res.texts = append(res.texts, t)
+					return true
 				case <-time.After(20 * time.Second):
 					res.err = fmt.Sprintf("no config pushed for state %d within 20 s", k)
+					return false
+				}
+			}
+			const catalogDelay = 250 * time.Millisecond
+			for k := 0; k < len(h.states); k++ {
+				if h.delayed != nil && h.delayed[k] && k+1 < len(h.states) {
+					seen := f.catalogRequests()
+					f.setSlow(true, catalogDelay)
+					f.set(h.states[k].checks, res.cats[k])
+					if !f.waitCatalogRequest(seen, 10*time.Second) {
+						res.err = fmt.Sprintf("no catalog request for snapshot %d within 10 s", k)
+						return
+					}
+					// the next snapshot is published while the catalog answer for this one is outstanding
+					f.setSlow(false, 0)
+					f.set(h.states[k+1].checks, res.cats[k+1])
+					if !recv(k) || !recv(k+1) {
+						return
+					}
+					k++
+					continue
+				}
+				if k > 0 {
+					f.set(h.states[k].checks, res.cats[k])
+				}
+				if !recv(k) {
 					return
+				}
+			}
+			if h.delayed != nil {
+				// quiescence: nothing is outstanding and nothing more may arrive
+				grace := time.After(2 * catalogDelay)
+				for done := false; !done; {
+					select {
+					case t := <-ch:
+						res.extra = append(res.extra, t)
+					case <-grace:
+						done = true
+					}
 				}
 			}
 		}(hi)
@@ -728,6 +846,17 @@ func partB(run *vh.Run) {
 		if res.err != "" {
 			run.Violation(run.NextID(), "consul backend against the fake Consul: "+res.err, h.class)
 			continue
+		}
+		if len(res.extra) > 0 {
+			run.Violation(run.NextID(), fmt.Sprintf("consul backend pushed %d more config(s) than there were registry snapshots", len(res.extra)), res.extra)
+		}
+		if h.delayed != nil { // after quiescence the last pushed config is the final state's
+			k := len(h.states) - 1
+			cat, human := coqCatalog(res.cats[k], h.prefix)
+			run.Add("svc-quiescent-last-config", vh.App("CSvc", vh.Bool(true), vh.HxS(h.prefix), strs(h.status), vh.Bool(h.strict),
+				coqChecks(h.states[k].checks), cat, vh.HxS(res.texts[len(res.texts)-1])),
+				map[string]interface{}{"final_state": humanChecks(h.states[k].checks), "catalog": human,
+					"pushed_in_order": res.texts, "delayed_catalog_at": h.delayed})
 		}
 		for k, st := range h.states {
 			cat, human := coqCatalog(res.cats[k], h.prefix)
